@@ -6,7 +6,7 @@ import ast
 
 from engine.cfg import CFG, normalise_compare, atoms
 from engine.dataflow import ReachingDefs
-from engine.model import src, stmt_key, dotted, walk_no_nested
+from engine.model import src, stmt_key, dotted, walk_no_nested, AnalysisError
 from engine import pat
 from engine.util import own_nodes, calls_with_nodes, where
 
@@ -172,6 +172,19 @@ def run(model, rep, tier):
     t = " ".join(src(nk.node).split())
     rep.check("if _matches_type_or_its_signature(_cname_types, rdtype, covers): return NodeKind.CNAME elif _matches_type_or_its_signature(_neutral_types, rdtype, covers): return NodeKind.NEUTRAL else: return NodeKind.REGULAR" in t,
               "R-09.3", nk.qualname, where(nk, nk.node), "classification: CNAME / neutral (NSEC, NSEC3, KEY and their signatures) / regular", "node-kind classification changed", stmt="classify")
+    ndm = model.modules["dns.node"]
+    try:
+        got_c = {int(v) for v in model.const(ndm, ndm.assigns["_cname_types"])}
+        got_n = {int(v) for v in model.const(ndm, ndm.assigns["_neutral_types"])}
+        rt = model.cls("dns.rdatatype.RdataType")
+        mem = model.enum_members(rt)
+        want_c, want_n = {mem["CNAME"]}, {mem["NSEC"], mem["NSEC3"], mem["KEY"]}
+        names = {v: k for k, v in mem.items()}
+        rep.check(got_c == want_c and got_n == want_n, "R-09.3", "dns.node._neutral_types", "dns/node.py", "CNAME-kind = {CNAME}; neutral = {NSEC, NSEC3, KEY} (RFC 4035 2.5, RFC 3007)",
+                  f"the exclusivity tables are CNAME-kind {sorted(names.get(v, v) for v in got_c)}, neutral {sorted(names.get(v, v) for v in got_n)}; expected CNAME-kind ['CNAME'], neutral ['KEY', 'NSEC', 'NSEC3']: "
+                  "a type that may sit next to a CNAME is evicted by it (or evicts it) silently, and which record survives depends on the order of the records", stmt="node-filter-tables")
+    except (AnalysisError, KeyError, TypeError, ValueError) as e:
+        rep.blind("R-09.3", "dns.node._neutral_types", "dns/node.py", f"the exclusivity tables could not be folded: {e}", stmt="node-filter-tables")
     rep.assume("equality of the re-read zone and agreement of equivalent spellings are behavioural and are not decided here")
     rep.share(model, "C05", {"R-05.6"}, "R-09.7", "the zone reader hands (current origin, relativize, zone origin) to dns.rdata.from_text for every record")
     rep.share(model, "C05", {"R-05.2"}, "R-09.4", "zone text is written with dns.rdata._escapify and read with Token.unescape_to_bytes")
@@ -261,6 +274,8 @@ def run(model, rep, tier):
 
 
 WITNESSES = [
+    {"id": "c09-neutral-table-key-replaced", "rule": "R-09.3", "file": "dns/node.py", "expect": "fires",
+     "old": "    dns.rdatatype.KEY,  # RFC 4035 section 2.5, RFC 3007", "new": "    dns.rdatatype.DNSKEY,  # RFC 4035 section 2.5, RFC 3007"},
     {"id": "c09-generate-unsigned-offset-not-defaulted", "rule": "R-09.10", "file": "dns/zonefile.py", "expect": "fires",
      "old": "                mod, sign, offset = g2.groups()\n                if sign == \"\":\n                    sign = \"+\"\n", "new": "                mod, sign, offset = g2.groups()\n"},
     {"id": "c09-wordbreak-drops-last-octet", "rule": "R-09.10", "file": "dns/rdata.py", "expect": "fires",
